@@ -474,7 +474,54 @@ fn kv_command<Ef: CapEffect>(job: KvJob) -> Command<Ef, Event> {
     }
 }
 
+/// How the capability-API key-value jobs are run: 0 = callback flavour, 1 = the `*_async`
+/// futures awaited in a task spawned through `Compose`, 2 = the same, but the future is first
+/// probed once without blocking (a poll with a throw-away waker, what `now_or_never` on
+/// `&mut fut` does) and then awaited - the waker of the second poll is the one that counts.
+pub static KV_LEGACY_FLAVOUR: std::sync::atomic::AtomicU8 = std::sync::atomic::AtomicU8::new(0);
+
+struct ThrowAwayWaker;
+
+impl std::task::Wake for ThrowAwayWaker {
+    fn wake(self: std::sync::Arc<Self>) {}
+}
+
+async fn probed<T>(fut: impl std::future::Future<Output = T>, probe_first: bool) -> T {
+    let mut fut = Box::pin(fut);
+    if probe_first {
+        let w = std::task::Waker::from(std::sync::Arc::new(ThrowAwayWaker));
+        if let std::task::Poll::Ready(v) = fut.as_mut().poll(&mut std::task::Context::from_waker(&w)) {
+            return v;
+        }
+    }
+    fut.await
+}
+
+fn kv_legacy_async(job: KvJob, caps: &d::Capabilities, probe_first: bool) {
+    let kv = caps.kv.clone();
+    caps.compose.spawn(move |ctx| async move {
+        let ev = match job {
+            KvJob::Get { key } => data(probed(kv.get_async(key), probe_first).await),
+            KvJob::Set { key, value } => data(probed(kv.set_async(key, value.0), probe_first).await),
+            KvJob::Delete { key } => data(probed(kv.delete_async(key), probe_first).await),
+            KvJob::Exists { key } => Event::Got(Outcome::Kv(match probed(kv.exists_async(key), probe_first).await {
+                Ok(b) => KvOut::Exists(b),
+                Err(e) => KvOut::Err(e.into()),
+            })),
+            KvJob::ListKeys { prefix, cursor } => Event::Got(Outcome::Kv(match probed(kv.list_keys_async(prefix, cursor), probe_first).await {
+                Ok((k, c)) => KvOut::Keys(k, c),
+                Err(e) => KvOut::Err(e.into()),
+            })),
+        };
+        ctx.update_app(ev);
+    });
+}
+
 fn kv_legacy(job: KvJob, caps: &d::Capabilities) {
+    match KV_LEGACY_FLAVOUR.load(std::sync::atomic::Ordering::Relaxed) {
+        0 => {}
+        f => return kv_legacy_async(job, caps, f == 2),
+    }
     match job {
         KvJob::Get { key } => caps.kv.get(key, data),
         KvJob::Set { key, value } => caps.kv.set(key, value.0, data),
